@@ -66,6 +66,8 @@ def main():
         W = "/tmp/wt/r10-%s" % pid  # round 10
     if any(m in ("m31", "m32", "m33") for m in ms):
         W = "/tmp/wt/r11-%s" % pid  # round 11
+    if any(m in ("m34", "m35", "m36") for m in ms):
+        W = "/tmp/wt/r12-%s" % pid  # round 12
     take_slot()
     for m in ms:
         out = os.path.join(W, "_out", m)
